@@ -640,6 +640,47 @@ fn growth(rng: &mut Rng, n: usize, sink: &mut Sink) {
             sink.fail(&["C12"], format!("{count} pushes of a {}-byte char issued {reqs} allocator requests (bound {bound:.1})", c.len()));
         }
     }
+    // the same bound for every other way of appending (a growth rule is easy to get right for `push` and wrong elsewhere)
+    for (oi, op) in ["push_str", "insert_str_end", "insert_front", "extend_strs", "write", "add_assign", "add", "reserve1_push"].iter().enumerate() {
+        let count = if n >= 4 { 6000 } else { 1200 };
+        sink.line("reset");
+        sink.line("limit 8388608");
+        match oi % 3 {
+            0 => sink.line("new 0"),
+            1 => sink.line("from_static 0 2"),
+            _ => {
+                sink.line(&format!("from 0 {}", h(T20)));
+                sink.line("clone 1 0");
+            }
+        }
+        let start_len = sink.ex.observe(0).map(|o| o.len).unwrap_or(0);
+        let before = crate::shadow::with(|s| s.reqs);
+        let piece = "ab€";
+        for k in 0..count {
+            let len = start_len + k * piece.len();
+            match *op {
+                "push_str" => sink.line(&format!("push_str 0 {}", h(piece))),
+                "insert_str_end" => sink.line(&format!("insert_str 0 {len} {}", h(piece))),
+                "insert_front" => sink.line(&format!("insert_str 0 0 {}", h(piece))),
+                "extend_strs" => sink.line(&format!("extend_strs 0 {}", h(piece))),
+                "write" => sink.line(&format!("write 0 {},{}", h("ab"), h("€"))),
+                "add_assign" => sink.line(&format!("add_assign 0 {}", h(piece))),
+                "add" => sink.line(&format!("add 0 {}", h(piece))),
+                _ => {
+                    sink.line("reserve 0 1");
+                    sink.line(&format!("push_str 0 {}", h(piece)));
+                }
+            }
+        }
+        let reqs = crate::shadow::with(|s| s.reqs) - before;
+        let final_len = (start_len + count * piece.len()) as f64;
+        let bound = 3.0 + (final_len / (start_len.max(16) as f64)).ln() / 1.5f64.ln();
+        sink.oracle.evaluations += 1;
+        sink.oracle.detail.push((format!("{op} loop {count} x 5 bytes: requests"), reqs));
+        if reqs as f64 > bound {
+            sink.fail(&["C12"], format!("{count} appends of 5 bytes through {op} issued {reqs} allocator requests (bound {bound:.1})"));
+        }
+    }
     // the same bound far beyond a megabyte: direct calls, no script (the model would have to carry the megabytes) --
     // a growth rule that turns additive for large strings shows only here
     {
